@@ -24,15 +24,21 @@ for m in . ./cmd/application ./cmd/registration-server ./util/station-debug; do
 done
 python3 - "$LOG" <<'PY'
 import json,sys
-res={}
+res={}; pkgout={}; pkgfail=[]
 for l in open(sys.argv[1],errors='replace'):
     try: e=json.loads(l)
-    except Exception: continue
+    except Exception:
+        pkgout.setdefault('?',[]).append(l.rstrip()); continue
+    if not e.get('Test'):
+        if e.get('Action')=='output': pkgout.setdefault(e.get('Package','?'),[]).append(e.get('Output','').rstrip())
+        if e.get('Action')=='fail': pkgfail.append(e.get('Package','?'))
     if e.get('Test') and e.get('Action') in('pass','fail','skip'):
         res[e['Package']+'::'+e['Test']]=e['Action']
 base=json.load(open('/root/.vp/BASELINE.json'))
 missing=[t for t in base['stable_pass'] if res.get(t)!='pass']
 print('passed',sum(1 for v in res.values() if v=='pass'),'failed',sorted(k for k,v in res.items() if v=='fail'))
 print('stable_pass not passing:',missing)
+for p in pkgfail+(['?'] if missing else []):
+    print('package-level output of',p,':'); print('\n'.join(pkgout.get(p,[])[-25:]))
 sys.exit(1 if missing else 0)
 PY
